@@ -81,3 +81,7 @@ Definition nonempty_pieces {A} (segs : list (list A)) : list (list A) :=
 (* decode times and durations are uint64/uint32 values whose sums do not wrap *)
 Definition times_fit (ss : list C11Model.fsample) : Prop :=
   Forall (fun s => C11Model.fs_dts s + C11Model.fs_dur s < 18446744073709551616) ss.
+
+(* the bytes of samples a..b in sample order: what a reader of a lazily written segment finds after the mdat header *)
+Definition S_data (f : pfile) (tb : tables) (a b : N) : list N :=
+  flat_map (fun n => match S_bytes f tb n with Some d => d | None => [] end) (seqN a (N.to_nat (b + 1 - a))).
